@@ -34,6 +34,22 @@ def build(sc, seed):
     s, d, pk = sc["solver"], sc["datafit"], sc["penalty"]
     fi = bool(sc["fit_intercept"])
     X = gen.design(rng, n, p, rho=rho, density=0.5 if sc["storage"] == "csc" else 1.0)
+    dg = sc.get("degen")
+    if dg:
+        n, p = {"tall": (20, 8), "wide": (6, 9), "single_feature": (12, 1), "single_group": (12, 5)}[dg["shape"]]
+        X = gen.design(rng, n, p, rho=0.4, density=0.6 if sc["storage"] == "csc" else 1.0)
+        for j, kind in enumerate(dg["cols"][:p]):
+            if kind == "zero":
+                X[:, j] = 0.0
+            elif kind == "dup" and p > 1:
+                X[:, j] = X[:, p - 1]
+            elif kind == "constant":
+                X[:, j] = 1.7
+            elif kind == "big":
+                X[:, j] *= 1e6
+            elif kind == "tiny":
+                X[:, j] *= 1e-6
+        X = np.asfortranarray(X)
     T = 1
     # ---------------- target and datafit descriptor
     if d in ("Quadratic", "None", "Huber", "QuadraticGroup", "SqrtQuadratic", "Pinball"):
@@ -53,6 +69,13 @@ def build(sc, seed):
         y = gen.target(rng, X, "reg", n_tasks=T, offset=1.0 if fi else 0.0)
     else:
         raise KeyError(d)
+    if dg and dg["target"] != "regular":
+        if d in ("Quadratic", "None", "Huber", "WeightedQuadratic", "QuadraticGroup", "QuadraticMultiTask"):
+            y = np.zeros_like(y) + (0.0 if dg["target"] == "zero" else 2.5)
+        elif d in ("Logistic", "LogisticGroup") and dg["target"] == "constant":
+            y = np.ones_like(y)
+        elif d == "Poisson":
+            y = np.zeros_like(y) + (0.0 if dg["target"] == "zero" else 3.0)
     if d == "Quadratic" or d == "None":
         dfd = {"kind": "Quadratic"}
     elif d == "WeightedQuadratic":
@@ -78,6 +101,12 @@ def build(sc, seed):
     grp = None
     if s in ("GroupBCD", "GroupProxNewton"):
         ptr, idx = gen.groups_random(rng, p, 4, permuted=bool(rng.integers(2)))
+        if dg and dg["shape"] == "single_group":
+            ptr, idx = [0, p], list(range(p))
+        elif dg:
+            # groups aligned with the degenerate columns: {0,1} (possibly an all-zero group), {2}, {3}, rest
+            cuts = sorted(set([0, min(2, p), min(3, p), min(4, p), p]))
+            ptr, idx = cuts, list(range(p))
         grp = (ptr, idx)
         dfd = dict(dfd, grp_ptr=ptr, grp_indices=idx)
     # ---------------- scale / alpha
